@@ -175,7 +175,7 @@ class Query:
         self.unwind_rules = list(unwind_rules)
         # the environment models' own tables (aio table 24, callback queue 24, reap queue 16) are larger than the
         # default bound used for loops of the code under test
-        if not any(r[0] == r"^env_" for r in self.unwind_rules):
+        if not any(r[0] == r"^env_" for r in self.unwind_rules) and (self.unwind is None or self.unwind < 26):
             self.unwind_rules.append((r"^env_", r".", 26))
         # a query whose every path is cut by an assumption (a schedule that is not executable) is not an error
         self.allow_pruned = allow_pruned
